@@ -50,7 +50,10 @@ def reps_of(g, P, rng):
     if P is None:
         t = G.rand_fe(g, rng)
         return [("id:std", V.proj(g, f.zero, f.one, f.zero)), ("id:t", V.proj(g, *G.identity_rep(g, t))),
-                ("id:11", V.proj(g, f.one, f.one, f.zero))]
+                ("id:11", V.proj(g, f.one, f.one, f.zero)),
+                # degenerate identity triples: all-zero (the isogeny evaluation returns it), one coordinate zero
+                ("id:000", V.proj(g, f.zero, f.zero, f.zero)), ("id:x00", V.proj(g, f.rand(rng), f.zero, f.zero)),
+                ("id:0y0", V.proj(g, f.zero, f.rand(rng), f.zero))]
     lam = G.rand_fe(g, rng)
     out = [("z1", V.proj(g, P[0], P[1], f.one)), ("z-1", V.proj(g, *G.rescale(g, P, f.neg(f.one)))),
            ("zl", V.proj(g, *G.rescale(g, P, lam)))]
@@ -113,17 +116,19 @@ def run_shard(shard, tier, seed, wd, res):
                 libp = s.op(gp + ".dbl", s.op(gp + ".add", lp, V.proj(g, *G.rescale(g, rng.choice(others), G.rand_fe(g, rng)))))
                 for _, Qm in partners(g, P, rng, others):
                     for tagq, lq in reps_of(g, Qm, rng):
-                        for op in ("add", "sub", "eq"):
+                        for op in ("add", "sub", "eq", "ne"):
                             s.op("%s.%s" % (gp, op), lp, lq)
                         qa = V.aff(g, Qm)
                         s.op(gp + ".addm", lp, qa)
                         s.op(gp + ".subm", lp, qa)
                     # library-produced representative of P against the partner, both directions
                     libq = s.op(gp + ".sub", s.op(gp + ".add", V.proj(g, *G.rescale(g, Qm, G.rand_fe(g, rng))) if Qm is not None else V.proj(g, *G.identity_rep(g, G.rand_fe(g, rng))), libp), libp)
-                    for op in ("add", "sub", "eq"):
+                    for op in ("add", "sub", "eq", "ne"):
                         s.op("%s.%s" % (gp, op), lp, libq)
                         s.op("%s.%s" % (gp, op), libq, lp)
                     s.op(gp + ".aeq", s.op(gp + ".to_affine", libq), V.aff(g, Qm))
+                    s.op(gp + ".ane", s.op(gp + ".to_affine", libq), V.aff(g, Qm))
+                    s.op(gp + ".ane", V.aff(g, P), V.aff(g, Qm))
         for op in ("zero", "one", "azero", "aone"):
             s.op("%s.%s" % (gp, op))
     elif part == "batch":
@@ -198,6 +203,7 @@ def program(s, g, rng, tier):
                 t = s.op(gp + ".add", regs[i], regs[j])
                 u = s.op(gp + ".sub", t, regs[i])
                 s.op(gp + ".eq", u, regs[j])
+                s.op(gp + ".ne", u, regs[j])
                 regs[k] = s.op(gp + rng.choice([".add", ".sub"]), u, regs[j])
                 regs[(k + 1) % 8] = u
             elif r < 0.76:
